@@ -2,9 +2,7 @@
    them (F10a: a waiter leaves the queue by ReleaseName or by the EXISTS
    branch; F10b: the owner changes its flags; F10c: a first Hello) EVERY
    state of the class has a failing index at which the caller is told
-   NoMemory although the state changed.  (For the replace / release-by-owner
-   classes, F14.1, the index depends on the number of NameOwnerChanged
-   subscribers; they are witnessed in Proofs.OomRefute instead.) *)
+   NoMemory although the state changed. *)
 From DV Require Import Spec.OomSpec Proofs.OomGeneric Proofs.OomLists Proofs.OomHandlers Proofs.OomMain.
 Local Open Scope N_scope.
 
@@ -41,7 +39,7 @@ Theorem tight_release_waiter b c cn name p w o :
 Proof.
   intros Hinv Ef Ea Er El Ep Eo.
   pose proof (find_conn_id _ _ _ Ef) as Hid.
-  destruct (inv_lookup _ _ _ Hinv El) as [_ Hlive].
+  destruct (inv_lookup _ _ _ Hinv El) as (_ & Hlive & _).
   assert (Efo : find_owner (p :: w) c = Some o) by (simpl; rewrite Ep; exact Eo).
   unfold step_oom, step_f, handler. rewrite Ef. unfold run_request. rewrite prelude_passes.
   unfold not_yet. rewrite Ea. unfold release_name, release_service. rewrite Er, Hid.
@@ -67,11 +65,11 @@ Theorem tight_exists_waiter b c cn name flags p w o :
 Proof.
   intros Hinv Ef Ea Er Elim El Ep Eo Eex.
   pose proof (find_conn_id _ _ _ Ef) as Hid.
-  destruct (inv_lookup _ _ _ Hinv El) as [_ Hlive].
+  destruct (inv_lookup _ _ _ Hinv El) as (_ & Hlive & _).
   assert (Efo : find_owner (p :: w) c = Some o) by (simpl; rewrite Ep; exact Eo).
   unfold step_oom, step_f, handler. rewrite Ef. unfold run_request. rewrite prelude_passes.
   unfold not_yet. rewrite Ea. unfold request_name, acquire_service. rewrite Er, Hid.
-  cbn [bind get interp s_bus]. rewrite Elim, El. unfold all_live. rewrite Hlive. cbn [negb]. rewrite Ep, Eex, Efo.
+  cbn [bind get interp s_bus]. rewrite Elim. cbn [andb]. rewrite El. unfold all_live. rewrite Hlive. cbn [negb]. rewrite Ep, Eex, Efo.
   unfold act, send_reply. cbn [bind allocs].
   rewrite act_then_alloc_fails.
   cbn [do_action]. rewrite El, Efo. unfold cancelled. cbn [s_hooks s_bus app cancel_all].
@@ -98,10 +96,10 @@ Theorem tight_owner_flags b c cn name flags p w :
 Proof.
   intros Hinv Ef Ea Er Elim El Ep Esf.
   pose proof (find_conn_id _ _ _ Ef) as Hid.
-  destruct (inv_lookup _ _ _ Hinv El) as [_ Hlive].
+  destruct (inv_lookup _ _ _ Hinv El) as (_ & Hlive & _).
   unfold step_oom, step_f, handler. rewrite Ef. unfold run_request. rewrite prelude_passes.
   unfold not_yet. rewrite Ea. unfold request_name, acquire_service. rewrite Er, Hid.
-  cbn [bind get interp s_bus]. rewrite Elim, El. unfold all_live. rewrite Hlive. cbn [negb]. rewrite Ep.
+  cbn [bind get interp s_bus]. rewrite Elim. cbn [andb]. rewrite El. unfold all_live. rewrite Hlive. cbn [negb]. rewrite Ep.
   unfold act, send_reply. cbn [bind allocs].
   rewrite act_then_alloc_fails.
   cbn [do_action]. rewrite El. unfold cancelled. cbn [s_hooks s_bus app cancel_all].
